@@ -5,10 +5,10 @@ package drive
 import (
 	"bufio"
 	"encoding/json"
-	"os"
-	"sync"
 	"fmt"
 	"net/url"
+	"os"
+	"sync"
 
 	"github.com/google/jsonschema-go/jsonschema"
 
@@ -104,8 +104,8 @@ func (l *MapLoader) Load(u *url.URL) (*jsonschema.Schema, error) {
 
 // Opt configures Against.
 type Opt struct {
-	Draft   ref.Draft // draft assumed by R1 when the text has no $schema
-	Prefix  string    // prepended to the case key
+	Draft   ref.Draft         // draft assumed by R1 when the text has no $schema
+	Prefix  string            // prepended to the case key
 	BaseURI string            // retrieval URI of the root (ResolveOptions.BaseURI)
 	Docs    map[string]string // loader documents by retrieval URI
 	DocsKey string            // rendered into the case key when Docs is set
